@@ -2707,6 +2707,18 @@ hsStateDetermined:
         {
 #endif
             /* Support for fragmented handshake messages - non-DTLS */
+#ifdef USE_DTLS
+            if (ACTV_VER(ssl, v_dtls_any))
+            {
+                /* A DTLS handshake message never continues in another
+                   record: what spans records is sent as handshake fragments,
+                   and those have their own reassembly above, which shares
+                   fragMessage and fragTotal with this one */
+                ssl->err = SSL_ALERT_DECODE_ERROR;
+                psTraceErrr("DTLS handshake message longer than its record\n");
+                return MATRIXSSL_ERROR;
+            }
+#endif
             if (ssl->fragMessage == NULL)
             {
                 /* Initial indication there is a fragmented message */
